@@ -299,7 +299,8 @@ def collect_cc(prop, tier):
     findings, summaries = [], []
     for variant in variants:
         for u, (uni, tpath, st, states, upath) in tables.items():
-            out = run_bin(variant, "cc_replay", [upath, tpath, namings, ncpu()],
+            nmode = "rotate+fresh" if (prop == "C01" and u in ("U3", "U4")) else namings
+            out = run_bin(variant, "cc_replay", [upath, tpath, nmode, ncpu()],
                           env=dict({"VERIF_MAXPATHS": 64 if tier == "quick" else 128}, **({"VERIF_SYN_ADD": "1"} if variant == "expl" else {})))
             recs = jsonl(out)
             summ = [r for r in recs if r["kind"] == "summary"][0]
